@@ -81,7 +81,22 @@ def link(src, dst, pos, j):
 
 
 def order_ok(n, edges, roots, pos_of):
-    """edges: dict (i, j) -> bool ; roots: list of bool ; pos_of(i, j) -> position name"""
+    """edges: dict (i, j) -> bool ; roots: list of bool ; pos_of(i, j) -> position name.
+    The graph is the only symbolic input: each flag is realised (solver-forked), after which the
+    class graph is concrete and orderer() + spec run untraced (tracing concrete code only costs time)."""
+    from vf.common import realize, _tracing
+
+    edges = {k: bool(realize(bool(b))) for k, b in edges.items()}
+    roots = [bool(realize(bool(r))) for r in roots]
+    if _tracing():
+        from crosshair.tracers import NoTracing
+
+        with NoTracing():
+            return _order_ok(n, edges, roots, pos_of)
+    return _order_ok(n, edges, roots, pos_of)
+
+
+def _order_ok(n, edges, roots, pos_of):
     from vf.common import Object, orderer, SchemaParseError
 
     classes = [Object.inline("C%d" % i) for i in range(n)]
@@ -184,16 +199,22 @@ def harnesses(ctx) -> List[H]:
     hs.append(mk("c11_n3_selfloops_properties", _edge_args(all3), [],
                  f"return order_ok(3, {_edge_dict(all3)}, [True, False, False], lambda i, j: 'properties')", tier="thorough", timeout=400, group="selfloop",
                  covers="3 classes incl. self-loops (512 graphs), single root"))
-    # n=4 partitioned: 12 off-diagonal edges; 6 fixed by the partition index, 6 symbolic
+    # n=4: 12 off-diagonal edges; 4 fixed by the partition index, 8 symbolic, 3 symbolic roots
     off4 = [(i, j) for i in range(4) for j in range(4) if i != j]
-    sym = off4[:6]
-    fix = off4[6:]
-    for pos in ("properties", "items", "cls_additionalProperties", "allOf"):
-        for part in range(64):
+    sym = off4[:8]
+    fix = off4[8:]
+    for pos in ("properties", "items", "cls_additionalProperties", "allOf", "nested_deep", "dependencies"):
+        for part in range(16):
             fixed = {p: bool((part >> k) & 1) for k, p in enumerate(fix)}
-            hs.append(mk(f"c11_n4_{pos}_p{part:02d}", _edge_args(sym) + ", r1: bool, r2: bool", [],
-                         f"return order_ok(4, {_edge_dict(sym, fixed)}, [True, r1, r2, False], lambda i, j: {pos!r})", tier="thorough", timeout=200, group="n4",
-                         covers=f"4 classes, partition {part}/64 of the 4096 loop-free-diagonal graphs, dependency under {pos}"))
+            hs.append(mk(f"c11_n4_{pos}_p{part:02d}", _edge_args(sym) + ", r1: bool, r2: bool, r3: bool", [],
+                         f"return order_ok(4, {_edge_dict(sym, fixed)}, [True, r1, r2, r3], lambda i, j: {pos!r})", tier="thorough", timeout=600, group="n4",
+                         covers=f"4 classes, partition {part}/16 of the 4096 graphs without self-loops x 8 root subsets containing C0, dependency under {pos}"))
+    # n=4 with self-loops on a chain-closed family: edges i->i+1 fixed, the rest symbolic
+    all4 = [(i, j) for i in range(4) for j in range(4)]
+    symA = [p for p in all4 if p not in ((0, 1), (1, 2), (2, 3))][:10]
+    hs.append(mk("c11_n4_chain_selfloops", _edge_args(symA), [],
+                 f"return order_ok(4, {_edge_dict(symA, {(0, 1): True, (1, 2): True, (2, 3): True})}, [True, False, False, False], lambda i, j: 'properties')", tier="thorough", timeout=600, group="n4",
+                 covers="4 classes on a fixed chain C0->C1->C2->C3 plus 10 symbolic further edges incl. self-loops"))
     # reachability twins
     hs.append(mk("c11__acyclic", _edge_args(off3), [], f"return not some_order(3, {_edge_dict(off3)}, [True, True, True], 'items', False)", kind="witness", timeout=30))
     hs.append(mk("c11__cyclic", _edge_args(off3), [], f"return not some_order(3, {_edge_dict(off3)}, [True, False, False], 'items', True)", kind="witness", timeout=30))
